@@ -11,6 +11,10 @@ import (
 const header = "From GL Require Import Common.Bytes Str.StrModel Str.FormatModel Str.MathWModel Str.StrCases."
 
 func main() {
+	if len(os.Args) == 4 && os.Args[1] == "child-rep" {
+		childRep(os.Args[2], os.Args[3])
+		return
+	}
 	a := lib.ParseArgs()
 	if a.Cmd != "run" {
 		fmt.Fprintln(os.Stderr, "unknown command", a.Cmd)
